@@ -222,13 +222,17 @@ fn lower_sub_ast_to_instrs(
         LowerStmt::Instr(instr) => Some({
             // this is the second time we're using encode_args (first time was to get labels), so suppress warnings
             let null_emitter = ctx.emitter.with_writer(crate::diagnostic::dev_null());
-            encode_args(&mut encoding_state, hooks, &instr, &ctx.defs, &null_emitter)
-                .expect("we encoded this successfully before!")
+            encode_args(&mut encoding_state, hooks, &instr, &ctx.defs, &null_emitter).or_else(|_| {
+                // Values that were placeholders the first time (offsetof/timeof of a label) can still fail to
+                // fit their encoding now.  Encode once more just to show the diagnostic.
+                encode_args(&mut ArgEncodingState::new(), hooks, &instr, &ctx.defs, &ctx.emitter)
+                    .and_then(|_| Err(ctx.emitter.emit(error!("failed to encode an instruction after resolving labels"))))
+            })
         }),
         LowerStmt::Label { .. } => None,
         LowerStmt::RegAlloc { .. } => None,
         LowerStmt::RegFree { .. } => None,
-    }).collect();
+    }).collect::<Result<Vec<_>, ErrorReported>>()?;
     let debug_info = do_debug_info.then(|| debug_info::ScriptLoweringInfo {
         register_info: debug_info_registers.unwrap(),
         offset_info: debug_info_labels.unwrap(),
